@@ -234,6 +234,13 @@ def layouts():
 
 
 def gen_nodes(rng, name, flavour, clean=False):
+    if flavour != "scc" and rng.random() < 0.25:
+        # the caption shapes of the text properties (C03/C08 generator): empty lines, edge breaks, style spans
+        import gens_text
+        while True:
+            nodes = gens_text.build_nodes(gens_text.rand_caption_nodes(rng))
+            if not clean or all(in_domain_text(name, n.content) for n in nodes if n.type_ == CaptionNode.TEXT):
+                return nodes
     nodes = []
     nlines = rng.randint(1, 3)
     styled = rng.random() < 0.25 and flavour != "scc"
